@@ -15,12 +15,12 @@ import (
 type MemOp struct {
 	Write bool   `json:"w,omitempty"`
 	Addr  uint64 `json:"a"`
-	Size  uint64 `json:"n"`              // bytes read, or len(Data)
-	Data  []byte `json:"d,omitempty"`    // write payload
-	Mask  []bool `json:"m,omitempty"`    // dirty mask (nil = all bytes)
-	PID   uint32 `json:"pid,omitempty"`  // process id (default 1)
-	At    uint64 `json:"at,omitempty"`   // earliest issue cycle (driver ticks)
-	Dst   int    `json:"dst,omitempty"`  // index into the driver's target list
+	Size  uint64 `json:"n"`             // bytes read, or len(Data)
+	Data  []byte `json:"d,omitempty"`   // write payload
+	Mask  []bool `json:"m,omitempty"`   // dirty mask (nil = all bytes)
+	PID   uint32 `json:"pid,omitempty"` // process id (default 1)
+	At    uint64 `json:"at,omitempty"`  // earliest issue cycle (driver ticks)
+	Dst   int    `json:"dst,omitempty"` // index into the driver's target list
 }
 
 // DriverSpec is the immutable script of a Driver.
